@@ -3,10 +3,12 @@ extraction of plain-data observations from androguard, the shipped-corpus sweep,
 
 A check module supplies
     plans(ctx) -> [plan]   plan = {"id", "n", "kinds", "tries": None | (max_tries, both), "layouts": (...), "orphans": (...),
-                                   "shared": bool}
-    judge(rm, obs, layout) -> [(key, msg)]          (pure data, from ref/cfg.py)
-    tally(acc, rm, obs, layout)                     optional extra vacuity counters
-and calls run_shard_common / replay_common / shards_common from here.
+                                   "shared": bool}      (the generated space; see gen/methods.py)
+    judge(acc, rm, obs, layout, ma=None, gen=True) -> [(key, msg)]   pure-data verdict of ONE method (ref/cfg.py) + counters
+    optional: SPECIAL = True (observe special_ins), XREF = True (create_xref per DEX) with judge_xrefs(acc, dx, ems, builts),
+              run_extra(ctx, acc, shard) for shard kinds of its own
+and calls shards_common / run_shard_common / replay_common / space_common from here.  run_shard and replay share
+run_batch()/run_ship(), i.e. the same judging code; a replayed generated method is alone in its DEX file.
 """
 import itertools
 
